@@ -20,6 +20,9 @@ use std::task::{Context, Poll, Wake, Waker};
 thread_local! {
     static MADE: Cell<u64> = Cell::new(0);
     static DROPPED: Cell<u64> = Cell::new(0);
+    /// polls granted to the combinator before it is dropped (POLL_CAP = run to completion)
+    static BUDGET: Cell<usize> = Cell::new(POLL_CAP);
+    static CANCELLED: Cell<bool> = Cell::new(false);
 }
 
 /// zero-sized value with an observable destructor
@@ -97,6 +100,161 @@ impl Stream for ZS {
     }
 }
 
+/// zero-sized CHILD types (helpers that iterate children by pointer range see an empty range for them)
+struct ZReadyF;
+impl Future for ZReadyF {
+    type Output = Result<Z, Z>;
+    fn poll(self: Pin<&mut Self>, _cx: &mut Context<'_>) -> Poll<Self::Output> {
+        Poll::Ready(Ok(Z::new()))
+    }
+}
+struct ZEmptyS;
+impl Stream for ZEmptyS {
+    type Item = Z;
+    fn poll_next(self: Pin<&mut Self>, _cx: &mut Context<'_>) -> Poll<Option<Z>> {
+        Poll::Ready(None)
+    }
+}
+const _: () = assert!(std::mem::size_of::<ZReadyF>() == 0 && std::mem::size_of::<ZEmptyS>() == 0);
+
+/// every family over zero-sized child types: futures that are ready at once, streams that are empty
+fn zst_children(fam: &str, cont: u8, n: usize, msgs: &mut Vec<(&'static str, String)>) {
+    let fp: &'static str = match fam {
+        "join" => "C04",
+        "try_join" => "C05",
+        "race" => "C06",
+        "race_ok" => "C07",
+        "merge" => "C08",
+        "zip" => "C09",
+        _ => "C10",
+    };
+    let bad = |what: String| (fp, format!("over zero-sized child types: {what}"));
+    match (fam, cont) {
+        #[cfg(feature = "fc-alloc")]
+        ("join", 0) => match drive_fut((0..n).map(|_| ZReadyF).collect::<Vec<_>>().join()) {
+            Some(o) if o.len() == n => {}
+            Some(o) => msgs.push(bad(format!("Vec join of {n} returned {} outputs", o.len()))),
+            None => msgs.push(bad("join did not resolve".into())),
+        },
+        ("join", 1) => {
+            if drive_fut([ZReadyF, ZReadyF, ZReadyF].join()).is_none() {
+                msgs.push(bad("array join did not resolve".into()));
+            }
+        }
+        #[cfg(feature = "fc-alloc")]
+        ("try_join", 0) => match drive_fut((0..n).map(|_| ZReadyF).collect::<Vec<_>>().try_join()) {
+            Some(Ok(o)) if o.len() == n => {}
+            Some(_) => msgs.push(bad(format!("Vec try_join of {n} ready children did not return {n} Ok values"))),
+            None => msgs.push(bad("try_join did not resolve".into())),
+        },
+        ("try_join", 1) => {
+            if !matches!(drive_fut([ZReadyF, ZReadyF, ZReadyF].try_join()), Some(Ok(_))) {
+                msgs.push(bad("array try_join of ready children did not return Ok".into()));
+            }
+        }
+        #[cfg(feature = "fc-alloc")]
+        ("race", 0) => {
+            if !matches!(drive_fut((0..n).map(|_| ZReadyF).collect::<Vec<_>>().race()), Some(Ok(_))) {
+                msgs.push(bad("Vec race of ready children did not resolve to Ok".into()));
+            }
+        }
+        ("race", 1) => {
+            if !matches!(drive_fut([ZReadyF, ZReadyF, ZReadyF].race()), Some(Ok(_))) {
+                msgs.push(bad("array race of ready children did not resolve to Ok".into()));
+            }
+        }
+        #[cfg(feature = "fc-alloc")]
+        ("race_ok", 0) => {
+            if !matches!(drive_fut((0..n).map(|_| ZReadyF).collect::<Vec<_>>().race_ok()), Some(Ok(_))) {
+                msgs.push(bad("Vec race_ok of succeeding children did not resolve to Ok".into()));
+            }
+        }
+        ("race_ok", 1) => {
+            if !matches!(drive_fut([ZReadyF, ZReadyF, ZReadyF].race_ok()), Some(Ok(_))) {
+                msgs.push(bad("array race_ok of succeeding children did not resolve to Ok".into()));
+            }
+        }
+        #[cfg(feature = "fc-alloc")]
+        ("merge", 0) => {
+            let (got, ended) = drive_str((0..n).map(|_| ZEmptyS).collect::<Vec<_>>().merge());
+            if !ended || !got.is_empty() {
+                msgs.push(bad(format!("Vec merge of {n} empty inputs yielded {} items, ended: {ended}", got.len())));
+            }
+        }
+        ("merge", 1) => {
+            let (got, ended) = drive_str([ZEmptyS, ZEmptyS, ZEmptyS].merge());
+            if !ended || !got.is_empty() {
+                msgs.push(bad(format!("array merge of empty inputs yielded {} items, ended: {ended}", got.len())));
+            }
+        }
+        #[cfg(feature = "fc-alloc")]
+        ("zip", 0) => {
+            let (got, ended) = drive_str((0..n).map(|_| ZEmptyS).collect::<Vec<_>>().zip());
+            if !ended || !got.is_empty() {
+                msgs.push(bad(format!("Vec zip of {n} empty inputs yielded {} rows, ended: {ended}", got.len())));
+            }
+        }
+        ("zip", 1) => {
+            let (got, ended) = drive_str([ZEmptyS, ZEmptyS, ZEmptyS].zip());
+            if !ended || !got.is_empty() {
+                msgs.push(bad(format!("array zip of empty inputs yielded {} rows, ended: {ended}", got.len())));
+            }
+        }
+        #[cfg(feature = "fc-alloc")]
+        ("chain", 0) => {
+            let (got, ended) = drive_str((0..n).map(|_| ZEmptyS).collect::<Vec<_>>().chain());
+            if !ended || !got.is_empty() {
+                msgs.push(bad(format!("Vec chain of {n} empty inputs yielded {} items, ended: {ended}", got.len())));
+            }
+        }
+        ("chain", 1) => {
+            let (got, ended) = drive_str([ZEmptyS, ZEmptyS, ZEmptyS].chain());
+            if !ended || !got.is_empty() {
+                msgs.push(bad(format!("array chain of empty inputs yielded {} items, ended: {ended}", got.len())));
+            }
+        }
+        ("merge", _) => {
+            let (got, ended) = drive_str((ZEmptyS, ZEmptyS).merge());
+            if !ended || !got.is_empty() {
+                msgs.push(bad("tuple merge of empty inputs did not end at once".into()));
+            }
+        }
+        ("chain", _) => {
+            let (got, ended) = drive_str((ZEmptyS, ZEmptyS).chain());
+            if !ended || !got.is_empty() {
+                msgs.push(bad("tuple chain of empty inputs did not end at once".into()));
+            }
+        }
+        ("zip", _) => {
+            let (got, ended) = drive_str((ZEmptyS, ZEmptyS).zip());
+            if !ended || !got.is_empty() {
+                msgs.push(bad("tuple zip of empty inputs did not end at once".into()));
+            }
+        }
+        ("join", _) => {
+            if drive_fut((ZReadyF, ZReadyF).join()).is_none() {
+                msgs.push(bad("tuple join did not resolve".into()));
+            }
+        }
+        ("try_join", _) => {
+            if !matches!(drive_fut((ZReadyF, ZReadyF).try_join()), Some(Ok(_))) {
+                msgs.push(bad("tuple try_join did not return Ok".into()));
+            }
+        }
+        ("race", _) => {
+            if !matches!(drive_fut((ZReadyF, ZReadyF).race()), Some(Ok(_))) {
+                msgs.push(bad("tuple race did not resolve".into()));
+            }
+        }
+        ("race_ok", _) => {
+            if !matches!(drive_fut((ZReadyF, ZReadyF).race_ok()), Some(Ok(_))) {
+                msgs.push(bad("tuple race_ok did not resolve".into()));
+            }
+        }
+        _ => {}
+    }
+}
+
 fn xs(s: &mut u64) -> u64 {
     *s ^= *s << 13;
     *s ^= *s >> 7;
@@ -110,10 +268,14 @@ fn drive_fut<F: Future>(f: F) -> Option<F::Output> {
     let mut f = Box::pin(f);
     let wk = Waker::from(Arc::new(Noop));
     let mut cx = Context::from_waker(&wk);
-    for _ in 0..POLL_CAP {
+    let budget = BUDGET.with(|b| b.get());
+    for _ in 0..budget {
         if let Poll::Ready(o) = f.as_mut().poll(&mut cx) {
             return Some(o);
         }
+    }
+    if budget < POLL_CAP {
+        CANCELLED.with(|c| c.set(true));
     }
     None
 }
@@ -123,7 +285,11 @@ fn drive_str<S: Stream>(s: S) -> (Vec<S::Item>, bool) {
     let wk = Waker::from(Arc::new(Noop));
     let mut cx = Context::from_waker(&wk);
     let mut out = vec![];
-    for _ in 0..POLL_CAP {
+    let budget = BUDGET.with(|b| b.get());
+    if budget < POLL_CAP {
+        CANCELLED.with(|c| c.set(true));
+    }
+    for _ in 0..budget {
         match s.as_mut().poll_next(&mut cx) {
             Poll::Ready(Some(i)) => out.push(i),
             Poll::Ready(None) => return (out, true),
@@ -164,8 +330,18 @@ pub fn run(prop: &str, case_seed: u64) -> ExecOut {
     let mkf = |i: usize| ZF { pend: pends[i % pends.len()], ok: all_ok || i != fail_at };
     let mks = |i: usize| ZS::new(items[i % items.len()], pends[i % pends.len()]);
     let desc = format!("zero-sized items: {fam} cont={} n={n} pends={pends:?} items={items:?} all_ok={all_ok} fail_at={fail_at}", ["vec", "array3", "tuple2"][cont as usize]);
+    let zst_kids = xs(&mut r) % 4 == 0 && matches!(fam, "join" | "try_join" | "race" | "race_ok" | "merge" | "zip" | "chain");
+    // cancellation: give the combinator only a few polls, then drop it (exercises the destructors with parked values)
+    let budget = if xs(&mut r) % 3 == 0 { 1 + (xs(&mut r) % 3) as usize } else { POLL_CAP };
+    BUDGET.with(|b| b.set(budget));
+    let desc = if zst_kids { format!("zero-sized CHILD types: {fam} cont={} n={n}", ["vec", "array3", "tuple2"][cont as usize]) } else { format!("{desc} poll_budget={budget}") };
     let r0 = std::panic::catch_unwind(std::panic::AssertUnwindSafe(|| {
         let mut msgs: Vec<(&'static str, String)> = vec![];
+        if zst_kids {
+            BUDGET.with(|b| b.set(POLL_CAP));
+            zst_children(fam, cont, n, &mut msgs);
+            return msgs;
+        }
         match (fam, cont) {
             #[cfg(feature = "fc-alloc")]
             ("join", 0) => match drive_fut((0..n).map(mkf).collect::<Vec<_>>().join()) {
@@ -353,10 +529,14 @@ pub fn run(prop: &str, case_seed: u64) -> ExecOut {
         }
         msgs
     }));
+    let cancelled = CANCELLED.with(|c| c.replace(false));
     match r0 {
         Ok(msgs) => {
-            for (p, m) in msgs {
-                v(p, m);
+            // a cancelled run is judged on ownership only (its shape is whatever it had reached)
+            if !cancelled {
+                for (p, m) in msgs {
+                    v(p, m);
+                }
             }
         }
         Err(pn) => {
@@ -377,7 +557,14 @@ pub fn run(prop: &str, case_seed: u64) -> ExecOut {
     }
     let (made, dropped) = (MADE.with(|m| m.get()), DROPPED.with(|m| m.get()));
     if viol.is_empty() && made != dropped {
-        viol.push(Violation { props: vec!["C02"], msg: format!("{made} zero-sized values were produced but {dropped} were dropped") });
+        // (C05: values of finished siblings are dropped, not returned; C09: unmatched items are dropped)
+        let mut props = vec!["C02"];
+        match fam {
+            "try_join" => props.push("C05"),
+            "zip" => props.push("C09"),
+            _ => {}
+        }
+        viol.push(Violation { props, msg: format!("{made} zero-sized values were produced but {dropped} were dropped (cancelled after {budget} polls: {cancelled})") });
     }
     ExecOut { viol, nontrivial: pends.iter().any(|p| *p > 0), sig: crate::mix(case_seed, 0x5A) ^ crate::world::fnv(desc.as_bytes()), desc, key: format!("zst/{fam}/{}", ["vec", "array", "tuple"][cont as usize]), ..Default::default() }
 }
